@@ -629,6 +629,12 @@ def _constraint_entries():
                     kw = {"lam": x["lam"]}
                     if rel != "eq":
                         kw["log_trick"] = x["log_trick"]
+                    # cost guard: the penalty of an inequality squares P plus a slack of the size of P's range (unary
+                    # without the log trick); a constraint polynomial that already carries another constraint's penalty
+                    # terms makes a single call run for minutes (valid, but not what this entry is about)
+                    if len(P) > 7 or sum(abs(float(v)) for v in dict.values(P)) > 24 or \
+                            any(isinstance(l, str) and l.startswith("__a") for k in dict.keys(P) for l in k):
+                        raise Skip("constraint_argument_too_costly")
                     want = ref.canon(dict(P), spin)
                     n_before = len(H._constraints.get(rel, []))
 
